@@ -85,6 +85,11 @@ class ManagerInterp:
                     self.flags.add("nominal_height_changed")
             elif op == "set_design_again":
                 guarded(self.mgr.set_design, flow_rate=self.scn["flow"], flow_type_str=self.scn["flow_type"].lower(), what="set_design")
+            elif op == "set_design_flow":
+                # set_design is a setter too: the last flow specification given is the one that counts
+                guarded(self.mgr.set_design, flow_rate=st_["flow"], flow_type_str=st_["flow_type"].lower(), what="set_design")
+                self.scn = dict(self.scn, flow=st_["flow"], flow_type=st_["flow_type"])
+                self.flags.add("flow_spec_changed")
             elif op == "foreign":
                 other = GHEManager()
                 o = gs.run_design(self.pool[st_["scn"]], "L2", manager=other)
@@ -142,7 +147,7 @@ def check_manager(case, rec):
         interp.step(s)
         rec.evaluations += 1
     rec.evaluations -= 1
-    if interp.finds >= 2 or interp.flags & {"permuted_order", "foreign_run", "nominal_height_changed"}:
+    if interp.finds >= 2 or interp.flags & {"permuted_order", "foreign_run", "nominal_height_changed", "flow_spec_changed"}:
         rec.nontriv(case["trace"])
     for f in interp.flags:
         rec.cls("history_" + f)
@@ -206,6 +211,7 @@ def search_manager(ctx):
         def configure(self, i, order, nominal):
             nom = pool[i]["bhe"]["borehole"]["H"] if nominal is None else nominal
             self.do({"op": "configure", "scn": i, "order": list(order), "nominal": nom})
+            self.do({"op": "find"})  # the oracle is evaluated at find_design: every change of state is followed by one
 
         @precondition(lambda self: self.interp.scn is not None)
         @rule()
@@ -216,6 +222,14 @@ def search_manager(ctx):
         @rule()
         def set_design_again(self):
             self.do({"op": "set_design_again"})
+            self.do({"op": "find"})
+
+        @precondition(lambda self: self.interp.scn is not None)
+        @rule(ft=st.sampled_from(["BOREHOLE", "SYSTEM"]), mult=st.sampled_from([1.0, 4.0, 16.0, 0.5]))
+        def set_design_flow(self, ft, mult):
+            base = self.interp.scn["flow"] if self.interp.scn["flow_type"] == "BOREHOLE" else self.interp.scn["flow"] / 16.0
+            self.do({"op": "set_design_flow", "flow_type": ft, "flow": base * (mult if ft == "SYSTEM" else min(mult, 1.0))})
+            self.do({"op": "find"})
 
         @rule(i=st.integers(0, len(pool) - 1))
         def foreign(self, i):
@@ -229,7 +243,7 @@ def search_manager(ctx):
             it = self.interp
             if self.skip:
                 return
-            if it.finds >= 2 or it.flags & {"permuted_order", "foreign_run", "nominal_height_changed"}:
+            if it.finds >= 2 or it.flags & {"permuted_order", "foreign_run", "nominal_height_changed", "flow_spec_changed"}:
                 ctx.rec.nontriv(self.trace)
             for f in it.flags:
                 ctx.rec.cls("history_" + f)
@@ -237,7 +251,7 @@ def search_manager(ctx):
             ctx.rec.cls("machines")
             ctx.rec.sample({"trace": self.trace})
 
-    _machine_run(ctx, M, ctx.n(32, 480) + 1, 6 if ctx.tier == "quick" else 10)
+    _machine_run(ctx, M, ctx.n(32, 480) + 1, 5 if ctx.tier == "quick" else 8)
 
 
 # =========================================================================================== one GHE object
